@@ -181,6 +181,8 @@ class Module:
             raise RuntimeError(msg)
         # Special case(s)
         if key == "name":
+            if val is not None and not isinstance(val, str):
+                raise TypeError(f"Invalid name {val} for Module {self}: must be a string")
             return super().__setattr__(key, val)
 
         # Check it's a valid attribute-type
@@ -322,7 +324,9 @@ def _assert_addable(module: Module, val: ModuleAttr, name: str) -> None:
     """Raise a `RuntimeError` if `val` cannot be added to `module` as `name`.
     Called before `val` is modified in any way."""
 
-    if name in _reserved:
+    if name in _reserved or name.startswith("_"):
+        # Names with a leading underscore are plain Python attributes of the object, never HDL attributes:
+        # `x._a = val` files nothing, and attribute access does not look `_a` up in the namespace.
         msg = f"Invalid attribute name {name} for {val} in Module {module}"
         raise RuntimeError(msg)
     if module._elaborated is not None:
